@@ -48,7 +48,7 @@ REAL = ['asyncssh forward.py, listener.py, socks.py, connection/channel '
         'forwarding paths of both endpoints']
 STUB = ['event loop + clock', 'TCP/UNIX sockets and listeners', 'DNS',
         'executor', 'origin and destination applications']
-PROBES = ['socks_request_never_completed', 'connected_behind_the_grant', 'listener_closed_twice', 'duplicate_listen_request', 'dynamic_listen_ports', 'mode_remote_unix', 'mode_local', 'mode_socks', 'mode_remote', 'mode_local_unix',
+PROBES = ['duplicate_listen_while_relaying', 'socks_request_never_completed', 'connected_behind_the_grant', 'listener_closed_twice', 'duplicate_listen_request', 'dynamic_listen_ports', 'mode_remote_unix', 'mode_local', 'mode_socks', 'mode_remote', 'mode_local_unix',
           'early_data', 'half_close', 'origin_abort', 'dest_close_first',
           'slow_consumer', 'refused_by_policy', 'ssh_cut',
           'origin_gone_during_open', 'multi_conn', 'listen_refused']
@@ -127,6 +127,11 @@ def gen_plan(rng):
         if mode == 'socks' else None,
         'lclose2': rng.choice([0, 0, 0, 1, 5, 30])
         if mode in ('remote', 'remote_unix') else 0,
+        # while connections come in on listener 0, the application asks
+        # for the same address again, to be relayed somewhere else (the
+        # server refuses: the address is in use)
+        'late_dup': {'delay': rng.below(8)}
+        if mode in ('remote', 'remote_unix') and rng.chance(25) else None,
     }
 
 
@@ -638,6 +643,27 @@ def run_plan(plan, sched_seed=None, sched_replay=None):
                     stuck.transport.write_eof()
             except OSError:
                 res['stuck'] = None
+
+        if plan.get('late_dup') and listeners.get(0) is not None and \
+                not plan.get('dyn_ports'):
+            async def late_dup():
+                for _ in range(plan['late_dup']['delay']):
+                    await sim.pause('late-dup')
+
+                sim.probes['duplicate_listen_while_relaying'] += 1
+
+                try:
+                    if mode == 'remote':
+                        res['late_dup'] = await conn.forward_remote_port(
+                            '127.0.0.1', 8000, '10.0.0.6', DESTS[1][1])
+                    else:
+                        res['late_dup'] = await conn.forward_remote_path(
+                            '/rlisten0.sock', '/dest1.sock')
+                except (asyncssh.Error, asyncssh.ChannelListenError,
+                        OSError) as exc:
+                    res['late_dup_error'] = exc
+
+            sim.track('late-dup', late_dup())
 
         if plan.get('lclose2') and listeners.get(0) is not None:
             async def close_twice():
